@@ -314,6 +314,9 @@ def gen_main():
 # step 4: run both sides
 # ---------------------------------------------------------------------------
 
+DEADLINE = [None]  # wall-clock time after which no new harness/driver batch is started (set in main)
+
+
 def run_lines(cmd, lines, timeout, env=None, label=""):
     """feed lines, expect one output line per input line. A crash mid-way marks that line
     `CRASH` and resumes after it."""
@@ -323,6 +326,12 @@ def run_lines(cmd, lines, timeout, env=None, label=""):
     timeouts = 0
     while i < len(lines):
         chunk = lines[i:]
+        if DEADLINE[0] is not None:
+            left = DEADLINE[0] - time.time()
+            if left < 5:
+                outs.extend(["CRASH deadline"] * (len(lines) - len(outs)))
+                break
+            timeout = min(timeout, left)
         rc, so, se, dt = run(cmd, inp="\n".join(chunk) + "\n", timeout=timeout, env=env)
         got = so.split("\n")
         if got and got[-1] == "":
@@ -448,6 +457,8 @@ def main():
     pid = args.prop.upper()
     P = load_prop(pid)
     t_start = time.time()
+    # overall budget for running cases: a code change that makes the implementation hang must not hang the check
+    DEADLINE[0] = t_start + float(os.environ.get("VERIF_DEADLINE_S", "1500" if tier == "quick" else "3300"))
     os.makedirs(BUILD, exist_ok=True)
     os.makedirs(os.path.join(VERIF, "evidence"), exist_ok=True)
     result = {"broken": [], "timing": {}}
